@@ -32,7 +32,7 @@ def run(chk):
     mixes = [list(m) for r in (1, 2, 3, 4) for m in itertools.combinations([2, 3, 4, 5], r)] + [[2, 6], [3, 7], [2, 4, 8]]
     for mix in mixes:                       # every mixture of sizes incl. the non-adjacent ones ({2,4} {2,5} {3,5} {2,4,5} ...)
         for base in (0, 1):
-            for rep in range(12 if thorough else 4):
+            for rep in range(60 if thorough else 4):
                 nv = max(mix) + rng.randrange(0, 5)
                 c = random_cover(rng, mix, nv, rng.randrange(len(mix), len(mix) + 4), base)
                 if c:
@@ -46,7 +46,7 @@ def run(chk):
                 for base in (0, 1):
                     cs.append({"kind": "cover", "cover": [[v + base for v in c] for c in combo], "seed": 1})
     chk.exhaustive["all covers of <= 2 cliques (sizes 2..4) over contiguous vertices 0..3 / 1..4"] = True
-    for i in range(1500 if thorough else 150):
+    for i in range(15000 if thorough else 150):
         mix = rng.choice(mixes)
         c = random_cover(rng, mix, max(mix) + rng.randrange(0, 30), rng.randrange(1, 25), rng.choice([0, 1]))
         if c:
